@@ -364,15 +364,18 @@ static ares_status_t ares_qcache_insert_int(ares_qcache_t           *qcache,
   }
 
   if (ares_slist_insert(qcache->expire, entry) == NULL) {
-    goto fail; /* LCOV_EXCL_LINE: OutOfMemory */
+    /* LCOV_EXCL_START: OutOfMemory */
+    ares_htable_strvp_remove(qcache->cache, entry->key);
+    goto fail;
+    /* LCOV_EXCL_STOP */
   }
 
   return ARES_SUCCESS;
 
 /* LCOV_EXCL_START: OutOfMemory */
 fail:
-  if (entry != NULL && entry->key != NULL) {
-    ares_htable_strvp_remove(qcache->cache, entry->key);
+  /* The response record stays with the caller on failure */
+  if (entry != NULL) {
     ares_free(entry->key);
     ares_free(entry);
   }
